@@ -197,6 +197,86 @@ def fresh_results(fam, vec):
     return out
 
 
+LONG_RUN = {"quick": 300, "thorough": 1500}
+INTERPOSED = {"quick": 320, "thorough": 1300}
+
+
+def long_runs(fam, vec, fresh, n):
+    """(iii) every operation n times in a row on one object, then all operations round-robin n
+    times on another; every single result compared with the fresh-object result."""
+    cls = observe.cls_of(fam)
+    ops = make_ops(fam, vec)
+    calls = 0
+    for i, (name, fn) in enumerate(ops):
+        o, twin = cls(vec), cls(vec)
+        for k in range(n):
+            calls += 1
+            try:
+                r = opseq.canon(fn(o, twin))
+            except Exception as e:  # noqa
+                return calls, [i] * (k + 1), "%s raised %s: %s at call %d in a row" % (name, type(e).__name__, e, k + 1)
+            if r != fresh[i]:
+                return calls, [i] * (k + 1), "%s returns %s at call %d in a row on one object, but %s on a fresh object" % (
+                    name, json.dumps(r)[:160], k + 1, json.dumps(fresh[i])[:160])
+    o, twin = cls(vec), cls(vec)
+    for k in range(n):
+        for i, (name, fn) in enumerate(ops):
+            calls += 1
+            try:
+                r = opseq.canon(fn(o, twin))
+            except Exception as e:  # noqa
+                return calls, None, "%s raised %s: %s in round %d of all operations" % (name, type(e).__name__, e, k + 1)
+            if r != fresh[i]:
+                return calls, None, "%s returns %s in round %d of all operations on one object, but %s on a fresh object" % (
+                    name, json.dumps(r)[:160], k + 1, json.dumps(fresh[i])[:160])
+    return calls, None, None
+
+
+def interposed(fam, vec, fresh, m):
+    """(iv) other objects in between: an equal object spelled differently goes through every
+    operation first, then the object itself, then m other distinct objects of all versions, then
+    the object again - all its results must equal the fresh-object results."""
+    cls = observe.cls_of(fam)
+    ops = make_ops(fam, vec)
+    calls = 0
+    other = cls(respelled(fam, vec))
+    for name, fn in make_ops(fam, respelled(fam, vec)):
+        fn(other, cls(other.vector))
+        calls += 1
+    o, twin = cls(vec), cls(vec)
+
+    def all_ops(when):
+        n = 0
+        for i, (name, fn) in enumerate(ops):
+            n += 1
+            try:
+                r = opseq.canon(fn(o, twin))
+            except Exception as e:  # noqa
+                return n, "%s raised %s: %s %s" % (name, type(e).__name__, e, when)
+            if r != fresh[i]:
+                return n, "%s returns %s %s, but %s on a fresh object" % (
+                    name, json.dumps(r)[:160], when, json.dumps(fresh[i])[:160])
+        return n, None
+
+    n, why = all_ops("after an equal object spelled %r went through the same operations" % other.vector)
+    calls += n
+    if why:
+        return calls, why
+    per = max(1, m // 8)
+    others = []
+    for f2 in [fam] + [f for f in T.FAMILIES if f != fam]:
+        k = m - 3 * per if f2 == fam else per
+        others += [(f2, v) for v, _ in observe.covering_seeds(f2, k)]
+    for f2, v in others:
+        x = observe.cls_of(f2)(v)
+        for name, fn in make_ops(f2):
+            fn(x, x)
+            calls += 1
+    n, why = all_ops("after %d other objects went through the same operations" % len(others))
+    calls += n
+    return calls, why
+
+
 def _task(t):
     fam, vec, depth = t
     acc = sweep.new_acc()
@@ -228,6 +308,22 @@ def _task(t):
                 break
             if k > 1:
                 acc["nontrivial"] += 1
+    tier = core.CURRENT_TIER or "quick"
+    if not acc["bad"]:
+        calls, seq, why = long_runs(fam, vec, fresh, LONG_RUN.get(tier, 300))
+        acc["calls"] += calls
+        acc["cmp"] += calls
+        acc["extra"]["long"] = calls
+        if why:
+            sweep.bad(acc, {"what": "%s(%r): %s" % (T.CLASSNAME[fam], vec, why), "kind": "long", "family": fam,
+                            "input": vec, "seq": seq or [], "signature": {"kind": "long"}})
+    if not acc["bad"]:
+        calls, why = interposed(fam, vec, fresh, INTERPOSED.get(tier, 320))
+        acc["calls"] += calls
+        acc["extra"]["interposed"] = calls
+        if why:
+            sweep.bad(acc, {"what": "%s(%r): %s" % (T.CLASSNAME[fam], vec, why), "kind": "interposed", "family": fam,
+                            "input": vec, "seq": [], "signature": {"kind": "interposed"}})
     if not acc["samples"]:
         acc["samples"].append({"vector": vec, "snapshot_bfs": {"states": nstates, "transitions": ntrans},
                                "ops": [n for n, _ in make_ops(fam, vec)]})
@@ -248,6 +344,10 @@ def run(ctx, res):
                            "max_states_per_seed": max(b[0] for b in bfs),
                            "seeds_where_state_cap_was_hit": sum(1 for b in bfs if b[2])}
     cov["blackbox_sequences"] = tot["n"]
+    cov["long_run_calls"] = sum(a["extra"].get("long", 0) for a in accs)
+    cov["long_run_length"] = LONG_RUN.get(ctx.tier, 300)
+    cov["interposed_calls"] = sum(a["extra"].get("interposed", 0) for a in accs)
+    cov["interposed_objects"] = INTERPOSED.get(ctx.tier, 320)
     cov["traces_validated_against_impl"] = tot["cmp"]
     cov["evaluations"] = tot["n"]
     cov["distinct_nontrivial"] = tot["nontrivial"]
@@ -256,7 +356,11 @@ def run(ctx, res):
                    "fixpoint per seed, in every state every operation must return the fresh-object "
                    "result (more than one state is reported, not alarmed: a benign cache); (ii) every operation sequence up to depth 2 (depth 3 on a "
                    "subset / all seeds in the thorough tier) on one object, each result compared with "
-                   "the same call on a fresh object; non-trivial = sequences of length >= 2")
+                   "the same call on a fresh object; (iii) every operation long_run_length times in a "
+                   "row on one object and all operations round-robin as many rounds on another; (iv) an "
+                   "equal object spelled differently, then interposed_objects other distinct objects of "
+                   "all versions go through every operation between two full observations of the "
+                   "object; non-trivial = sequences of length >= 2")
     cov["exhaustive"] = False
     cov["bound"] = "%d seeds; all sequences <= depth 2 on all, <= depth 3 on %d seeds; snapshot BFS to fixpoint" % (
         len(sd), len(deep))
@@ -277,6 +381,14 @@ def replay(case):
     if case["kind"] == "state":
         n, t, capped, v = bfs_seed(fam, vec, fresh)
         return v is not None, "%d states; %s" % (n, v)
+    if case["kind"] == "long":
+        tier = case.get("tier") or "quick"
+        calls, seq, why = long_runs(fam, vec, fresh, LONG_RUN.get(tier, 300))
+        return bool(why), why or "pure over %d calls" % calls
+    if case["kind"] == "interposed":
+        tier = case.get("tier") or "quick"
+        calls, why = interposed(fam, vec, fresh, INTERPOSED.get(tier, 320))
+        return bool(why), why or "pure over %d calls" % calls
     why = run_sequence(fam, vec, seq, fresh)
     return bool(why), why or "pure"
 
